@@ -1,10 +1,5 @@
-import MM.Props.Exhaustive
-import MM.Props.Greedy
 import MM.Props.C01Admit
-#print axioms MM.Search.evaluated_sub_listing
-#print axioms MM.Search.C01_exhaustive_evaluated
-#print axioms MM.Search.C01_exhaustive
-#print axioms MM.Search.C01_greedy
+
 #print axioms MM.Admit.admit_sorted
 #print axioms MM.Admit.admit_must
 #print axioms MM.Admit.admit_excluded
